@@ -155,14 +155,15 @@ Proof.
     rewrite IA, E1. eexists; split; [reflexivity|].
     constructor; unfold set_pending; simpl; auto; try congruence. rewrite E1. auto.
   - (* Out *)
-    apply N.leb_le in E.
+    apply N.leb_le in E. cbv zeta.
+    assert (Hmin : 6 <= N.min n att_mtu) by (unfold att_mtu; lia).
     destruct (pending s && negb (outstanding s)) eqn:EP.
     + apply Bool.andb_true_iff in EP. destruct EP as [EP1 EP2]. apply Bool.negb_true_iff in EP2.
       assert (HP : in_progress s = true).
       { destruct (in_progress s) eqn:H; auto. rewrite (II eq_refl) in EP1. discriminate. }
-      rewrite (IS HP). simpl. assert (3 <=? n = true) as -> by lia.
+      rewrite (IS HP). simpl. assert (3 <=? N.min n att_mtu = true) as -> by lia.
       set (s1 := mk (in_progress s) (opcode s) (cur_pos s) (req_pos s) (wheel s) (cccd s) false true).
-      destruct (csc_read_shape c s1 (n - 3) ltac:(lia)) as (tl & s' & R & P1 & P2 & P3 & P4 & P5).
+      destruct (csc_read_shape c s1 (N.min n att_mtu - 3) ltac:(lia)) as (tl & s' & R & P1 & P2 & P3 & P4 & P5).
       rewrite R. simpl. rewrite IA, HP. simpl. rewrite N.eqb_refl.
       eexists; split; [reflexivity|].
       constructor; simpl; rewrite ?P1, ?P2, ?P3, ?P4, ?P5; simpl; auto; congruence.
@@ -212,7 +213,9 @@ Lemma deadlock_after_unsubscribe : monitor (run cfgA (init cfgA) w_unsub) = Some
 Proof. vm_compute. reflexivity. Qed.
 Lemma read_resets_procedure : monitor (run cfgA (init cfgA) w_read) = Some (3%nat, t_accepted_busy).
 Proof. vm_compute. reflexivity. Qed.
-Lemma unsent_indication_blocks : monitor (run cfgA (init cfgA) w_unsent) = Some (4%nat, t_response_missing).
+(* since /repo f69efba an indication that could not be sent no longer stays outstanding: the
+   former fourth witness (response blocked by an unsent indication) is accepted now *)
+Lemma unsent_indication_no_longer_blocks : monitor (run cfgA (init cfgA) w_unsent) = None.
 Proof. vm_compute. reflexivity. Qed.
 
 Theorem never_deadlocks_refuted : ~ never_deadlocks_full.
